@@ -741,6 +741,40 @@ theorem field_name_nullable_carried (m : Bool) (f : ArrowField) (c : Col)
     subst h
     exact ⟨by simp [field_name_carried_spec.1], by simp [Gen.Arrow.carriesNullable]⟩
 
+/-! ## What a column says comes from its field, not from the data (seventh pass)
+
+`from_arrow` builds its columns from the fields of the first table and hands them out as they are.  Whether the function
+stores anything on them afterwards is generated from the source (`Gen.ArrowExpr.schemaEditedAfterBuild`). -/
+
+/-- Nothing is stored on the columns / the schema in `from_arrow` after they were built from the Arrow fields (generated from
+the source: no attribute or element assignment, no `setattr`, no edit of the column list). -/
+theorem schema_from_fields_only_spec : Gen.ArrowExpr.schemaEditedAfterBuild = false := by decide
+
+/-- The columns `from_arrow` hands out for a first table with these fields, whatever the cells are (`holdsNull`: per column,
+does the first table hold a null there; `rowsInFirst`: its number of rows).  If the function edits the columns after building
+them, the model says nothing about them. -/
+def fromArrowColumns (fields : List ArrowField) (_holdsNull : List Bool) (_rowsInFirst : Nat) : Option (List (Option Col)) :=
+  if Gen.ArrowExpr.schemaEditedAfterBuild then none else some (fields.map (fromArrowField false))
+
+/-- The columns are a function of the fields alone: not of which columns hold nulls, not of the number of rows. -/
+theorem from_arrow_columns_from_fields (fields : List ArrowField) (holdsNull : List Bool) (n : Nat) :
+    fromArrowColumns fields holdsNull n = some (fields.map (fromArrowField false)) := by
+  simp [fromArrowColumns, schema_from_fields_only_spec]
+
+/-- **Name and nullability of every column `from_arrow` hands out are those of its field** - for a field declared
+`nullable = false` whose column holds nulls as for any other. -/
+theorem from_arrow_column_nullable_from_field (fields : List ArrowField) (holdsNull : List Bool) (n i : Nat) (c : Col)
+    (cs : List (Option Col)) (h : fromArrowColumns fields holdsNull n = some cs) (hc : cs[i]? = some (some c)) :
+    ∃ f, fields[i]? = some f ∧ c.name = f.name ∧ c.nullable = f.nullable := by
+  rw [from_arrow_columns_from_fields] at h
+  cases h
+  rw [List.getElem?_map] at hc
+  cases hf : fields[i]? with
+  | none => simp [hf] at hc
+  | some f =>
+    simp [hf] at hc
+    exact ⟨f, rfl, field_name_nullable_carried false f c hc⟩
+
 /-! ## Separate conversions whose results are edited in between (fourth pass)
 
 A conversion hands out mutable objects built from an immutable Arrow schema that compares by value.
